@@ -80,6 +80,15 @@ func (c06) Gen(r *kern.Rng, tier string, idx int) *Trace {
 	tr := &Trace{Property: "C06", Family: "W-plain <-> R-valid across implementations", W: sc}
 	// reading side schedule for the stdlib->fastgo direction
 	tr.R = &scen.RScen{Pkg: pkg, Src: genSrc(r, true), Del: genDelivery(r), Reads: genReads(r)}
+	if sc.Hdr != nil && r.Pct(25) {
+		// header strings around the limits of the encoding: 7-bit / Latin-1 / beyond
+		edge := []string{"\u0080", "a\u0080b", "\u007f", "\u0080\u0081", "\u00ff", "x\u00ffy", "\u00a0", "\u0081", "\u007f\u0080", "e\u0301", "\u0100", "a\u0100"}
+		if r.Bool() {
+			sc.Hdr.Name = edge[r.Intn(len(edge))]
+		} else {
+			sc.Hdr.Comment = edge[r.Intn(len(edge))]
+		}
+	}
 	return tr
 }
 
